@@ -41,7 +41,7 @@ func prng(r PRng) string { return fmt.Sprintf("%d:%d-%d:%d", r.SL, r.SC, r.EL, r
 func c09(c *Ctx) {
 	c.Rep.TieObs = []string{"O-proxy: downstream request parameters and the reply of every overridden position-based method"}
 	c.Rep.Rule = "for each of 11 position-based methods (+ CodeLens, CodeAction) x every character position of two open template documents (mapped and unmapped) x four scripted downstream answers (range inside mapped text, in generated boilerplate, in another generated file, in a plain .go file); oracle from the real Compose tables: downstream is asked about the generated file at map(position); unmapped position => empty answer, no error, downstream not consulted; answers in generated files come back in template coordinates under the template URI, plain .go locations unchanged; distinct = distinct (method, document, position, answer shape)"
-	docA := "package x\n\n@goht A(s string, n int) {\n\t%p= s\n\t%a{href: #{s}, n ? #{n > 1}} t #{s} u\n\t- if n > 2\n\t\t= @render B(s)\n}\n"
+	docA := "package x\n\n@goht A(s string, n int) {\n\t%p= s\n\t%i= %d n\n\t%a{href: #{s}, n ? #{n > 1}} t #{s} u\n\t- if n > 2\n\t\t= @render B(s)\n}\n"
 	docB := "package x\n\n@goht B(s string) {\n\t.c[s]= s\n}\n"
 	uA, uB, uGo := "file:///w/a.goht", "file:///w/b.goht", "file:///w/plain.go"
 	real := c.composeReal([]string{docA, docB})
@@ -85,6 +85,26 @@ func c09(c *Ctx) {
 		c.mismatch("setup", docA, "no distinguishing range", "a generated range the two maps translate differently", true)
 		return
 	}
+	// a range from one mapped segment into ANOTHER mapped segment of the same generated line (`%d` and `n` of
+	// goht.FormatString("%d", n)), and one from mapped text into unmapped text of the same line
+	var twoSeg, intoBoiler PRng
+	for k := range tA.t2s {
+		for c2 := k[1] + 2; c2 < k[1]+12; c2++ {
+			_, endMapped := tA.t2s[[2]int{k[0], c2}]
+			_, gap := tA.t2s[[2]int{k[0], c2 - 1}]
+			if endMapped && !gap && k[0] > 10 {
+				cand := PRng{uint32(k[0]), uint32(k[1]), uint32(k[0]), uint32(c2)}
+				if twoSeg == (PRng{}) || cand.SL < twoSeg.SL || (cand.SL == twoSeg.SL && (cand.SC < twoSeg.SC || (cand.SC == twoSeg.SC && cand.EC < twoSeg.EC))) {
+					twoSeg = cand
+				}
+			}
+		}
+	}
+	intoBoiler = PRng{mA.SL, mA.SC, mA.SL, mA.SC + 40}
+	if twoSeg == (PRng{}) {
+		c.mismatch("setup", docA, "no generated line with two mapped segments", "a format-verb line", true)
+		return
+	}
 	boiler := PRng{5, 0, 5, 6} // `import "context"` line of the generated file: not mapped
 	plain := PRng{3, 1, 3, 9}
 	answers := []struct {
@@ -95,6 +115,8 @@ func c09(c *Ctx) {
 		{"boilerplate", PLoc{uA + ".go", boiler}},
 		{"other-generated-file", PLoc{uB + ".go", mB}},
 		{"plain-go-file", PLoc{uGo, plain}},
+		{"mapped-same-file/two-segments", PLoc{uA + ".go", twoSeg}},
+		{"mapped-same-file/into-unmapped-text", PLoc{uA + ".go", intoBoiler}},
 	}
 	lines := strings.Split(docA, "\n")
 	type reqInfo struct {
@@ -207,7 +229,11 @@ func c09(c *Ctx) {
 		}
 		// reply: where the scripted location must end up
 		wantURI, wantR := ans.loc.URI, ans.loc.R
-		switch ans.name {
+		ansName := ans.name
+		if strings.HasPrefix(ansName, "mapped-same-file") {
+			ansName = "mapped-same-file"
+		}
+		switch ansName {
 		case "mapped-same-file":
 			wantURI, wantR = uA, tA.mapRangeBack(ans.loc.R)
 		case "boilerplate":
@@ -218,37 +244,37 @@ func c09(c *Ctx) {
 		switch info.method {
 		case "Definition", "TypeDefinition", "Implementation", "References":
 			want := fmt.Sprintf("%s [%s@%s]", info.method, wantURI, prng(wantR))
-			if ans.name == "boilerplate" {
+			if ansName == "boilerplate" {
 				if !strings.Contains(reply, "["+wantURI+"@") {
 					bad("reply-uri", "reply "+reply+", expected a location under "+wantURI)
 				}
 			} else if reply != want {
-				bad("reply-"+ans.name, "reply "+reply+", expected "+want)
+				bad("reply-"+ansName, "reply "+reply+", expected "+want)
 			}
 		case "Declaration":
 			want := fmt.Sprintf("Declaration [%s@%s@%s]", wantURI, prng(wantR), prng(wantR))
-			if ans.name == "boilerplate" {
+			if ansName == "boilerplate" {
 				if !strings.Contains(reply, "["+wantURI+"@") {
 					bad("reply-uri", "reply "+reply)
 				}
 			} else if reply != want {
-				bad("reply-"+ans.name, "reply "+reply+", expected "+want)
+				bad("reply-"+ansName, "reply "+reply+", expected "+want)
 			}
 		case "Hover", "PrepareRename":
 			// a single range of the requesting document
-			if ans.name == "mapped-same-file" {
+			if ansName == "mapped-same-file" {
 				if want := info.method + " " + prng(tA.mapRangeBack(ans.loc.R)); reply != want {
 					bad("reply-range", "reply "+reply+", expected "+want)
 				}
 			}
 		case "OnTypeFormatting", "CodeLens", "CodeAction":
-			if ans.name == "mapped-same-file" {
+			if ansName == "mapped-same-file" {
 				if want := info.method + " [" + prng(tA.mapRangeBack(ans.loc.R)) + "]"; reply != want {
 					bad("reply-range", "reply "+reply+", expected "+want)
 				}
 			}
 		case "Completion":
-			if ans.name == "mapped-same-file" {
+			if ansName == "mapped-same-file" {
 				if want := "Completion [" + prng(tA.mapRangeBack(ans.loc.R)) + "+]"; reply != want {
 					bad("reply-range", "reply "+reply+", expected "+want)
 				}
